@@ -34,8 +34,12 @@ MethodsC15 == { Mth("", v, r, FALSE, FALSE, <<>>) : v \in {"GET", "POST"}, r \in
 CfgsSim == { Cfg(en, v, e, d, <<"s1", "s2">>) : en \in {"gin", "echo", "mux", "chi", "fiber"}, v \in {"3.0.0", "3.1.0"}, e \in BOOLEAN, d \in {NoSec, S("s1", <<"d">>)} }
 CtrlsSim == { Ctl(pk, f, n, pre, tg, sec) : pk \in {"p1", "p2"}, f \in {"f1", "f2"}, n \in {"AController", "BController", "CController"},
                                             pre \in {"", "/a", "/a/", "/{t}", "/b", "/c/d"}, tg \in {"A", "Tag B", ""}, sec \in SecShapes }
-MethodsSim == { Mth(f, v, r, h, d, sec) : f \in {"", "f1", "f2"}, v \in {"GET", "POST", "PUT", "DELETE", "PATCH"},
-                                          r \in {"/", "/x", "x", "//x", "/x/", "/{id}", "/{id}/y", "/x/{id}", "/y"}, h \in BOOLEAN, d \in BOOLEAN, sec \in SecShapes }
+CtrlsSimD == { [c EXCEPT !.desc = ds] : c \in CtrlsSim, ds \in {"", "\n", "A controller\n"} }
+\* doc-comment layouts: no free text, plain text, nothing but blank comment lines, text followed / preceded by blank lines
+DescChoices == {"", "Does something", "\n", "\nText after a blank line", "Text\n\nmore text\n"}
+MethodsSim == { [Mth(f, v, r, h, d, sec) EXCEPT !.desc = ds] : f \in {"", "f1", "f2"}, v \in {"GET", "POST", "PUT", "DELETE", "PATCH"},
+                                          r \in {"/", "/x", "x", "//x", "/x/", "/{id}", "/{id}/y", "/x/{id}", "/y"}, h \in BOOLEAN, d \in BOOLEAN, sec \in SecShapes,
+                                          ds \in DescChoices }
 \* ---- C06: parameter lists, pointer-ness, locations, aliases, validators, return shapes, error responses --------------------
 NoTypes == {<<>>}
 Fld(n, t, js, v) == [name |-> n, type |-> t, json |-> js, valid |-> v, desc |-> "", embed |-> FALSE, deprecated |-> FALSE]
@@ -275,6 +279,24 @@ MethodsC10single == {BaseJ, BaseF, BaseJr, BaseFr, BaseP} \cup Perturb1(BaseJ) \
 \* the core of the single-perturbation space (three bases, one controller prefix): small enough to be run in full on every change
 CtrlsC10core == { Ctl("p1", "f1", "AController", "/a", "A", <<>>) }
 MethodsC10core == {BaseJ, BaseF, BaseP} \cup Perturb1(BaseJ) \cup Perturb1(BaseF) \cup Perturb1(BaseP)
+\* the core of the masking space: a stray property on annotation i together with an error that involves the same annotation
+\* (duplicate, retarget), and a stray property on @Method together with every unsupported verb
+StrayAnn(b, i) == [b EXCEPT !.anns[i].extra = "example: \"abc\"", !.ptag = Tag(b, "strayProp:" \o b.anns[i].kind)]
+StrayVerb(b) == [b EXCEPT !.verbProps = "note: \"x\"", !.ptag = Tag(b, "strayVerbProp")]
+MaskCore(b) ==
+       UNION { { [StrayAnn(b, i) EXCEPT !.anns = Append(StrayAnn(b, i).anns, StrayAnn(b, i).anns[i]), !.ptag = Tag(StrayAnn(b, i), "dupAnn:" \o b.anns[i].kind)] }
+               \cup { [StrayAnn(b, i) EXCEPT !.anns[i].value = b.anns[j].value, !.ptag = Tag(StrayAnn(b, i), "retargetAnn:" \o b.anns[i].kind \o ">" \o b.anns[j].kind)]
+                          : j \in DOMAIN b.anns \ {i} }
+               \cup { [StrayAnn(b, j) EXCEPT !.anns[i].value = b.anns[j].value, !.ptag = Tag(StrayAnn(b, j), "retargetAnn:" \o b.anns[i].kind \o ">" \o b.anns[j].kind)]
+                          : j \in DOMAIN b.anns \ {i} }
+               : i \in DOMAIN b.anns }
+  \cup { [StrayVerb(b) EXCEPT !.verb = v, !.ptag = Tag(StrayVerb(b), "verb:" \o v)] : v \in {"HEAD", "OPTIONS", "FETCH", "get", "DELETE"} }
+MethodsC10maskcore == MaskCore(BaseJ) \cup MaskCore(BaseF) \cup MaskCore(BaseP)
+\* enforceSecurityOnAllRoutes with nothing securing the route: the missing-security diagnostic is built for every route, whatever
+\* else is wrong with it (no results, unsupported verb, dropped parameters ...)
+CfgsC10enf == { Cfg("gin", "3.0.0", TRUE, NoSec, <<"s1">>) }
+ShapeChanged(b, x) == x.ret # b.ret \/ x.verb # b.verb \/ Len(x.sig) # Len(b.sig) \/ x.route # b.route
+MethodsC10enf == {BaseJ, BaseF} \cup {x \in Perturb1(BaseJ) : ShapeChanged(BaseJ, x)} \cup {x \in Perturb1(BaseF) : ShapeChanged(BaseF, x)}
 MethodsC10double == Perturb2(BaseJ) \cup Perturb2(BaseF) \cup Perturb2(BaseJr)
 MethodsC10mask == Stray(BaseJ) \cup Stray(BaseF) \cup Stray(BaseP) \cup PerturbMask(BaseJ) \cup PerturbMask(BaseF) \cup PerturbMask(BaseP)
 
